@@ -123,15 +123,26 @@ func c05Body(x *explore.Ctx, sh c05Shape, readerIsServer bool, rbs, fi int, tier
 	msgs := full.Data()
 	cut := x.Pick(len(stream)+1, "cut")
 	chunking := x.Pick(3, "chunking")
-	prog := x.Pick(2, "readprog")
+	prog := x.Pick(3, "readprog") // 0 ReadMessage, 1 NextReader+Read, 2 NextReader + read one byte, then abandon
 	rsize := 4096
 	if prog == 1 {
 		rsize = c05ReadSizes[x.Pick(len(c05ReadSizes), "readsize")]
 	}
 	ft := c05Faults[fi]
+	// the fault either persists (the stream ends there) or is a one-shot: the transport reports
+	// it once at that offset and then goes on delivering the rest of the stream
+	oneShot := x.Pick(2, "fault-persists|one-shot") == 1
 	nc := netsim.NewConn(stream[:cut])
 	nc.NoReadLog = true
 	nc.AtEnd, nc.LastWith = ft.atEnd, ft.lastWith
+	if oneShot {
+		nc = netsim.NewConn(stream)
+		nc.NoReadLog = true
+		nc.OneShotAt, nc.OneShotKind, nc.OneShotData = cut, ft.atEnd, ft.lastWith != netsim.OK
+		if ft.lastWith == netsim.FailDataEOF {
+			nc.OneShotKind = netsim.FailEOF
+		}
+	}
 	switch chunking {
 	case 1:
 		nc.Chunk = netsim.ChunkFixed(1)
@@ -150,7 +161,7 @@ func c05Body(x *explore.Ctx, sh c05Shape, readerIsServer bool, rbs, fi int, tier
 		x.NonTrivial()
 	}
 	// ---- run the read program until the first error
-	var got []wsref.Message
+	var got, abandoned []wsref.Message
 	var firstErr error
 	fromNext := false
 	var partial []byte
@@ -170,6 +181,12 @@ func c05Body(x *explore.Ctx, sh c05Shape, readerIsServer bool, rbs, fi int, tier
 			firstErr, fromNext = err, true
 			break
 		}
+		if prog == 2 {
+			var b [1]byte
+			n, _ := r.Read(b[:])
+			abandoned = append(abandoned, wsref.Message{Type: t, Payload: b[:n]})
+			continue
+		}
 		var all []byte
 		buf := make([]byte, rsize)
 		for {
@@ -186,11 +203,29 @@ func c05Body(x *explore.Ctx, sh c05Shape, readerIsServer bool, rbs, fi int, tier
 		}
 	}
 	x.Obs("cut=%d/%d delivered=%s partial=%d err=%v fromNext=%v failstart=%d", cut, len(stream), fmtMsgs(got), len(partial), firstErr, fromNext, nc.FailStart)
-	x.Check(firstErr != nil, key("no-error"), "stream cut at %d of %d but the read program saw no error; delivered %s", cut, len(stream), fmtMsgs(got))
+	x.Check(firstErr != nil, key("no-error"), "transport fault %s at offset %d of %d (one-shot=%v) but the read program saw no error; delivered %s, started %d", ft.name, cut, len(stream), oneShot, fmtMsgs(got), len(abandoned))
 	// ---- oracle
 	arrivedBefore := cut
 	if nc.FailStart >= 0 {
 		arrivedBefore = nc.FailStart
+	}
+	if prog == 2 {
+		// abandon program: a message was "started" when NextReader returned it; every message that
+		// had completely arrived must have been started, and at most one more (the partial one)
+		mustS, mayS := 0, 0
+		for _, m := range msgs {
+			if m.EndOff <= arrivedBefore {
+				mustS++
+			}
+			if m.EndOff <= cut {
+				mayS++
+			}
+		}
+		x.Check(len(abandoned) <= mayS+1, key("abandon-delivered-after-fault"), "%d messages were handed out although the fault at offset %d allows at most %d (+1 partial)", len(abandoned), cut, mayS)
+		x.Check(len(abandoned) >= mustS, key("lost-complete"), "%d messages had completely arrived before the fault but only %d were handed out before the error %v", mustS, len(abandoned), firstErr)
+		for i, m := range abandoned {
+			x.Check(i < len(msgs) && m.Type == msgs[i].Type && bytes.HasPrefix(msgs[i].Payload, m.Payload), key("corrupt"), "abandoned message %d differs from what was sent", i)
+		}
 	}
 	must, may := 0, 0
 	for _, m := range msgs {
@@ -205,7 +240,7 @@ func c05Body(x *explore.Ctx, sh c05Shape, readerIsServer bool, rbs, fi int, tier
 	for i, m := range got {
 		x.Check(m.Type == msgs[i].Type && bytes.Equal(m.Payload, msgs[i].Payload), key("corrupt"), "message %d reported complete differs from what was sent: %s vs %s", i, short(m.Payload), short(msgs[i].Payload))
 	}
-	x.Check(len(got) >= must, key("lost-complete"), "%d messages had completely arrived before the failing transport read (offset %d) but only %d were reported before the error %v", must, arrivedBefore, len(got), firstErr)
+	x.Check(prog == 2 || len(got) >= must, key("lost-complete"), "%d messages had completely arrived before the failing transport read (offset %d) but only %d were reported before the error %v", must, arrivedBefore, len(got), firstErr)
 	if !fromNext {
 		// the error surfaced while reading a message: it is a partial message
 		x.Check(firstErr != io.EOF, key("partial-eof"), "partially received message ended with io.EOF")
@@ -215,7 +250,7 @@ func c05Body(x *explore.Ctx, sh c05Shape, readerIsServer bool, rbs, fi int, tier
 	}
 	// ---- afterwards: NextReader fails, always with the same error, nothing delivered -
 	// also when the transport "recovers" and the rest of the stream becomes readable
-	if x.Pick(2, "transport-recovers-after-the-error") == 1 {
+	if !oneShot && x.Pick(2, "transport-recovers-after-the-error") == 1 {
 		nc.In = append(append([]byte{}, nc.In...), stream[cut:]...)
 		nc.AtEnd, nc.LastWith = netsim.FailEOF, netsim.OK
 	}
